@@ -303,7 +303,8 @@ pub struct ModelTree {
     /// every path the model touched (for the "nothing else changes" check)
     pub touched: BTreeSet<String>,
     pub platform: u16,
-    /// a command needed a directory where a regular file sits: the reference fails there
+    /// a command needed a directory where a regular file sits, or a write reaches beyond the
+    /// largest file the simulated disk holds: the reference fails there
     pub blocked: bool,
 }
 
@@ -383,6 +384,11 @@ impl ModelTree {
         self.touched.insert(path.to_string());
         if data.is_empty() {
             // seeking past the end without writing does not extend a file
+            return;
+        }
+        if (offset as u64).saturating_add(data.len() as u64) > crate::simfs::MAX_FILE {
+            // the simulated disk refuses a file this large (ENOSPC): the reference fails here
+            self.blocked = true;
             return;
         }
         let f = self.files.get_mut(path).unwrap();
